@@ -205,3 +205,38 @@ static SweepInfo c05_f32_sweep(Ctx& ctx, const Clause& cl)
 static Reg r_c05_f32_sweep({ "C05.f32sweep", "C05", "sweep",
   "enumeration of float bit patterns through fixed_t{v} (strided in the quick tier, all 2^32 in the thorough tier); oracle and non-trivial rule as C05.f32 (distinct by construction)",
   c05_f32_check, 0, nullptr, c05_f32_sweep });
+
+// stratified lattices: doubles per (sign, exponent) in the conversion window and beyond; raw values per bit length
+static SweepInfo c05_f64_lattice(Ctx& ctx, const Clause& cl)
+{
+  SweepInfo si; bool thorough = ctx.tier == "thorough"; uint64_t per = thorough ? (1u << 21) : (1u << 15);
+  si.note = strf("for each sign and each binary exponent in [-24, 34] a lattice of %llu mantissas (odd stride, offset from VERIF_SEED) plus the 64 smallest and largest mantissas of the binade; every 4th exponent of the remaining double range with 256 mantissas", (unsigned long long)per);
+  uint64_t idx = 0; const uint64_t MM = (uint64_t)1 << 52;
+  auto run = [&](int e, uint64_t count) {
+    uint64_t step = (MM / count) | 1, off = mix64(ctx.seed * 977 + (uint64_t)(e + 2000)) % MM;
+    for (int sgn = 0; sgn < 2; ++sgn) {
+      for (uint64_t j = 0; j < count; ++j) { if (!mine(ctx, ++idx)) continue; uint64_t man = (off + j * step) % MM; uint64_t b = ((uint64_t)sgn << 63) | ((uint64_t)(e + 1023) << 52) | man; ctx.evaluate(cl, { 0, (int64_t)b }); }
+      for (uint64_t j = 0; j < 64; ++j) for (int hi = 0; hi < 2; ++hi) { if (!mine(ctx, ++idx)) continue; uint64_t man = hi ? MM - 1 - j : j; uint64_t b = ((uint64_t)sgn << 63) | ((uint64_t)(e + 1023) << 52) | man; ctx.evaluate(cl, { 0, (int64_t)b }); }
+    }
+  };
+  for (int e = -24; e <= 34; ++e) run(e, per);
+  for (int e = -1022; e <= 1023; e += 4) if (e < -24 || e > 34) run(e, 256);
+  return si;
+}
+static Reg r_c05_f64_lattice({ "C05.f64lattice", "C05", "sweep",
+  "double bit patterns: for each sign and binary exponent in [-24, 34] (everything that converts to a non-zero in-range value, and the first out-of-range binades) a seed-offset lattice of mantissas plus the binade's 64 lowest and highest mantissas; the rest of the exponent range sparsely; through fixed_t{v}; oracle and non-trivial rule as C05.f64 (distinct by construction)",
+  c05_f64_check, 0, nullptr, c05_f64_lattice });
+static SweepInfo c05_tofp_lattice(Ctx& ctx, const Clause& cl)
+{
+  SweepInfo si; bool thorough = ctx.tier == "thorough"; uint64_t per = thorough ? 2000000 : 40000; int exbits = thorough ? 22 : 18;
+  si.note = strf("exhaustive on |raw| < 2^%d; lattice of %llu values per bit length %d..63 with both signs; the band [2^31-1, 2^31) +-70000 raw", exbits, (unsigned long long)per, exbits + 1);
+  uint64_t idx = 0;
+  for (int64_t x = -((int64_t)1 << exbits) + 1; x < ((int64_t)1 << exbits); ++x) if (mine(ctx, ++idx)) ctx.evaluate(cl, { x });
+  for (int len = exbits + 1; len <= 63; ++len) { uint64_t base = (uint64_t)1 << (len - 1), span = base, cnt = std::min<uint64_t>(per, span), step = (span / cnt) | 1, off = mix64(ctx.seed * 53 + len) % span;
+    for (uint64_t j = 0; j < cnt; ++j) if (mine(ctx, ++idx)) { uint64_t v = base + (off + j * step) % span; if (v > (uint64_t)MAXF) v = MAXF; ctx.evaluate(cl, { (j & 1) ? (int64_t)v : -(int64_t)v }); } }
+  int64_t bandlo = (int64_t)2147483647 * 65536; for (int64_t dl = -70000; dl <= 70000; dl += thorough ? 1 : 7) for (int sg = 0; sg < 2; ++sg) if (mine(ctx, ++idx)) { int64_t v = bandlo + dl; ctx.evaluate(cl, { sg ? -v : v }); }
+  return si;
+}
+static Reg r_c05_tofp_lattice({ "C05.tofplattice", "C05", "sweep",
+  "raw values: exhaustive on |raw| < 2^18 quick / 2^22 thorough, a seed-offset lattice per bit length up to 63 with both signs, and the round-trip band; through fixed->float (three spellings), fixed->double and the double round trip; oracle and non-trivial rule as C05.tofp (distinct by construction)",
+  c05_tofp_check, 0, nullptr, c05_tofp_lattice });
